@@ -305,6 +305,46 @@ class RefreshUnit(Unit):
         return ex
 
 
+def replay_tell_at_end():
+    """native: a reader that stands PAST the newest file (seek to the end / fresh reader without a head file) takes tell() - or saves it through close() into a head
+    file -, the writer goes on, the position is restored with seek(pos) / a reopen: exactly the records written in between must be delivered"""
+    import logging, os, shutil, tempfile
+    logging.disable(logging.CRITICAL)
+    from openfilter.filter_runtime.rolllog import RollLog
+    obs = []
+    for file_size in (10 ** 6, 1):
+        for via in ('seek(tell())', 'close + reopen with the head file'):
+            d = tempfile.mkdtemp(prefix='verif_rl_end_')
+            try:
+                logs, head = os.path.join(d, 'logs'), os.path.join(d, 'head')
+                os.makedirs(logs)
+                t = 1700000000.0
+                w = RollLog(logs, mode='txt', file_size=file_size, total_size=10 ** 9)
+                for i in range(3):
+                    w.write(f'rec{i}', timestamp=t + i)
+                r = RollLog(logs, mode='txt', rdonly=True, head=head if via != 'seek(tell())' else None)
+                r.seek(('end', 0))
+                if via == 'seek(tell())':
+                    pos = r.tell()
+                else:
+                    r.close()
+                for i in range(3, 5):
+                    w.write(f'rec{i}', timestamp=t + i)
+                if via == 'seek(tell())':
+                    r.refresh_logfiles()
+                    r.seek(pos)
+                else:
+                    r = RollLog(logs, mode='txt', rdonly=True, head=head)
+                got = [x for x in (r.read() for _ in range(8)) if x is not None]
+                if got != ['rec3', 'rec4']:
+                    obs.append(f'file_size={file_size}: reader at the end of 3 records, position taken ({via}), 2 more written, position restored: delivered {got}, required [rec3, rec4]')
+            except Exception as e:
+                obs.append(f'file_size={file_size}, {via}: {type(e).__name__}: {e}')
+            finally:
+                shutil.rmtree(d, ignore_errors=True)
+    return obs
+
+
 class SeekTellUnit(Unit):
     """seek(tell()) is the identity on the read position, for writable and read-only logs (real tell, real seek)"""
     name = 'RollLog.seek o RollLog.tell'
@@ -341,6 +381,10 @@ class SeekTellUnit(Unit):
             else:
                 O('C13.seek_tell: ... at its start when nothing of it was read yet', rf is None or (isinstance(rf, Obj) and rf.f['target'] is fs.logs[idx] and ex.eq(rf.f['pos'], 0) is True))
         else:
+            # tell() is taken now and used later (seek after more writes, or a reopen through the head file): what is written in between must lie AFTER it
+            O('C13.seek_tell: at the end of all logs tell() is a position fixed at the time of the call - the end of the newest listed file - not a marker that is resolved '
+              'only when seek() runs (records written between tell() and seek() would be skipped)',
+              isinstance(pos, (tuple, list)) and len(pos) == 2 and isinstance(pos[0], Obj) and pos[0].f.get('us') is files[-1].path.f['us'] and pos[1] is files[-1].size)
             O('C13.seek_tell: at the end of all logs seek(tell()) delivers nothing that was already delivered',
               (r == N and rf is None) or (r == N - 1 and isinstance(rf, Obj) and rf.f['target'] is fs.logs[N - 1] and rf.f['pos'] is files[N - 1].size))
         return ex
@@ -375,6 +419,7 @@ class SeekTellUnit(Unit):
                         obs.append(f'file_size={file_size}, {n_first} records written, {n_read} read, seek(tell()), 3 more written ({"same object" if same_object else "separate reader"}): delivered {got}')
                 finally:
                     shutil.rmtree(d, ignore_errors=True)
+        obs += replay_tell_at_end()
         if obs:
             return {'confirmed': True, 'inputs': 'write, read, seek(tell()), write on, read', 'observed': obs[:4], 'required': 'every record exactly once, in writing order'}
         from replay_drivers import rolllog_history
